@@ -6,6 +6,7 @@ operations (trusted) these per-operation facts give the hand-out claims for ever
 interleaving:
  A1 every AtomicValue method is one atomic access on _value per path with the right result;
  A2 ThreadLock is a thin wrapper of the atomic test-and-set;
+ A3 Task's accessors of its atomic parent counter are one atomic operation each and return that operation's result;
  V1 a slot index is returned only after its flag was won; V2 who may flip a slot flag;
  V3 occupancy counter paired with hand-out / release; V4 (=C12-M5) released ranges are reset;
  Q1/Q2 TaskQueue state only under its lock, lock released once on every path;
@@ -727,6 +728,7 @@ def run(chk, prog):
         chk.analysed(unit=name)
     check_atomic_value(chk, lib)
     check_thread_lock(chk, lib)
+    chk.floor("A3", check_atomic_wrappers(chk, lib), 5)
     check_thread_safe_vector(chk, lib)
     from .c12 import rule_M5_pool_reset
     n = len(chk.obligations)
@@ -737,3 +739,68 @@ def run(chk, prog):
     check_task_queue(chk, lib)
     check_lock_dependency(chk, lib)
     check_memory_space(chk, lib)
+
+
+def check_atomic_wrappers(chk, lib, rule="A3", classes=("Task",)):
+    """A method that exposes an atomic counter of its class stays ONE atomic operation: on every path it performs exactly
+    one call on the AtomicValue member and, if it returns a value, it returns the result of that very call (a
+    decrement followed by a separate read is two operations: two threads can both read 0)."""
+    n = 0
+    for clsq in classes:
+        rec = lib.record(clsq)
+        atomics = {f["n"] for f in rec["fields"] if (f.get("t") or "").startswith("AtomicValue<")}
+        if not atomics:
+            raise AnalysisBroken("%s has no AtomicValue member any more" % clsq)
+        for m in lib.methods_of(clsq):
+            if not m.get("body") or m.get("ctor") or m.get("dtor"):
+                continue
+            g = C.CFG(m)
+            touched = set()
+
+            def atomic_calls(node, m=m):
+                out = []
+                asts = []
+                if node.ast is not None and node.kind not in ("marker",) and node.ast.get("k") not in ("Abort", "RangeHasNext"):
+                    if node.kind == "decl":
+                        asts = [d["init"] for d in node.ast["d"] if d.get("init") is not None]
+                    elif node.kind == "return":
+                        asts = [node.ast["x"]] if node.ast.get("x") else []
+                    elif node.kind == "init":
+                        asts = [node.ast["x"]] if node.ast.get("x") else []
+                    else:
+                        asts = [node.ast]
+                for a in asts:
+                    for x in C.walk(a):
+                        if x.get("k") == "Call" and x.get("obj") is not None and not x.get("mac") and \
+                                C.member_name(x["obj"]) in atomics:
+                            out.append(x)
+                return out
+            per_node = {nd.id: atomic_calls(nd) for nd in g.nodes}
+            if not any(per_node.values()):
+                continue
+            if m.get("name", "").startswith("operator"):
+                continue
+            for calls in per_node.values():
+                for x in calls:
+                    touched.add(C.member_name(x["obj"]))
+
+            def tr(node, st):
+                return [(None, min(st + len(per_node[node.id]), 3))]
+            ex = C.explore(g, 0, tr)
+            counts = set(ex.at.get(g.exit.id, ()))
+            n += 1
+            okc = counts == {1}
+            chk.require(okc, rule, "%s::%s performs exactly one operation on its atomic counter on every path" %
+                        (clsq, m["name"]), where(m), "numbers of atomic operations on %s along the paths of this method: %s "
+                        "(two operations are not one atomic step: another thread can run in between)" %
+                        (sorted(touched), sorted(counts)), function=m["full"], construct="%s single op" % m["name"])
+            rets = [nd for nd in g.nodes if nd.kind == "return" and nd.ast.get("x") is not None]
+            if rets and okc:
+                for r in rets:
+                    e = C.strip_casts(r.ast["x"])
+                    n += 1
+                    direct = e.get("k") == "Call" and e.get("obj") is not None and C.member_name(e["obj"]) in atomics
+                    chk.require(direct, rule, "%s::%s returns the result of that single atomic operation" % (clsq, m["name"]),
+                                where(r.ast, m), "the returned value `%s` is not the result of the atomic operation itself" %
+                                C.pretty(e), function=m["full"], construct="%s returns op" % m["name"])
+    return n
